@@ -24,13 +24,14 @@ sv = VerusUnit("c13_single_via", "c13_single_via", rlimit=60, paired_kani=(kw, [
 yr = VerusUnit("c13_yen_run", "c13_yen_run", rlimit=60, paired_kani=(kw, []))
 sp = VerusUnit("c02_speed", "c02_speed", rlimit=30)
 ro = VerusUnit("c03_route_output", "c03_route_output", rlimit=30)
+td = VerusUnit("c03_turn_delay", "c03_turn_delay", rlimit=30)
 ow = KaniUnit("c07_cost_ops_wit", CORE, modules=[dict(file=CORE + "/src/model/cost/cost_ops.rs", src="c07_cost_ops_wit.rs")], harnesses=[])
 ow.native_witnesses = ["c07_wit_cost_is_weight_times_rated_state_change"]
 co = VerusUnit("c07_cost_ops", "c07_cost_ops", rlimit=30, paired_kani=(ow, []))
-UNITS = [heading, turn, sm, cm, sv, yr, sp, ro, co, smw, kw, ow]
+UNITS = [heading, turn, sm, cm, sv, yr, sp, ro, td, co, smw, kw, ow]
 EXPLANATION = ("turn classification kernels (complete over i16); StateModel get/set/add under contract (frame + `add` grows the slot by the increment converted to the feature's unit) and the accumulation lemma; "
                "per-edge state/cost split (EdgeTraversal::forward/reverse_traversal, Verus, see C07 units); the speed-table traversal model (unit c02_speed): an edge adds its length (converted) to the distance slot "
                "and length / its own table speed to the time slot, nothing else changes; the reverse half of a bidirectional route is re-traversed edge by edge in travel order, each edge after its TRUE predecessor "
-               "and from the state that predecessor left (reorient_reverse_route, unit c13_single_via); every route of Yen's driver is `chained`: from its second edge on, each edge is the traversal of that edge after the edge actually before it, from the state that edge left (unit c13_yen_run; failed on the pinned code, fixed); the route summary (unit c03_route_output, verbatim construct_route_output): the `traversal_summary` of a route in the response is the serialisation of the state AFTER THE LAST EDGE of that very route under the instance's own state model, the path block is generated from the same route, and an empty route is an error, never a summary of something else; 'each edge's reported cost is the weighted, rated change of state on that edge' (unit c07_cost_ops, verbatim cost_ops): the vehicle cost is the aggregate over the features of weight x rate(next - prev) in the feature's slot")
-NOT_DECIDED = "StateModel::serialize_state itself (serde_json; a deterministic serialisation) and the placement of the route object in the response (slice patterns over serde_json values); the energy traversal models' speed reconstruction; turn-delay engine lookup tables"
+               "and from the state that predecessor left (reorient_reverse_route, unit c13_single_via); every route of Yen's driver is `chained`: from its second edge on, each edge is the traversal of that edge after the edge actually before it, from the state that edge left (unit c13_yen_run; failed on the pinned code, fixed); the route summary (unit c03_route_output, verbatim construct_route_output): the `traversal_summary` of a route in the response is the serialisation of the state AFTER THE LAST EDGE of that very route under the instance's own state model, the path block is generated from the same route, and an empty route is an error, never a summary of something else; 'each edge's reported cost is the weighted, rated change of state on that edge' (unit c07_cost_ops, verbatim cost_ops): the vehicle cost is the aggregate over the features of weight x rate(next - prev) in the feature's slot; the turn-delay access model (unit c03_turn_delay, verbatim get_delay / get_headings / access_edge): accessing an edge from another adds to the time feature the delay the table lists for the class of the angle from the heading of the edge LEFT to the heading of the edge ENTERED, in the table's unit, and nothing else; a missing heading, an unclassifiable angle or a missing table row is an error, never a default delay")
+NOT_DECIDED = "StateModel::serialize_state itself (serde_json; a deterministic serialisation) and the placement of the route object in the response (slice patterns over serde_json values); the energy traversal models' speed reconstruction; how the heading and delay tables are read from files"
 ASSUMPTIONS = ["alloc::fmt::format stubbed on error paths"]
